@@ -301,7 +301,7 @@ func randSegs(l *lcg, levels []uint8) []pq.Seg {
 			if l.next(3) == 0 {
 				n = c
 			}
-			segs = append(segs, pq.Seg{RLE: true, N: n, HdrPad: map[bool]int{true: 1, false: 0}[l.next(17) == 0]})
+			segs = append(segs, pq.Seg{RLE: true, N: n, HdrPad: map[bool]int{true: 1 + l.next(4), false: 0}[l.next(17) == 0 && n < 64]})
 			pos += n
 		} else {
 			g := 1 + l.next(4)
